@@ -722,6 +722,13 @@ class Eval:
                 cs = SL.chars_where(lambda c: getattr(c, f.attr)())
                 if idx == 0:
                     return reach & first_in(cs)
+            # <concrete set>.isdisjoint(s): no character of s is an element of the set (elements longer than one character
+            # never equal a character)
+            if isinstance(f, ast.Attribute) and f.attr == "isdisjoint" and len(e.args) == 1 and self.is_str(e.args[0]) \
+                    and not self.mentions_str(f.value):
+                elems = self.conc(f.value)
+                chars = [x for x in elems if isinstance(x, str) and len(x) == 1]
+                return reach - contains_any_char(SL.syms(chars))
             # predicate / decoder method calls
             res = self.callfn(e)
             if res is not None:
@@ -1137,6 +1144,21 @@ class Eval:
                 if isinstance(s.value.func, ast.Attribute) and s.value.func.attr == "encode" and self.is_str(s.value.func.value):
                     ascii_ok = star(SL.chars_where(lambda c: ord(c) < 128))
                     return {"N": reach & ascii_ok, "E": reach - ascii_ok}     # UnicodeError is a ValueError
+                # a mutating call on a concrete local built from the tables (excluded.update(self.grammar.whitespace),
+                # names.append(x)): carried out on the concrete value -- nothing of the string under test is involved
+                f_ = s.value.func
+                if isinstance(f_, ast.Attribute) and isinstance(f_.value, ast.Name) and isinstance(self.env.get(f_.value.id), Conc) \
+                        and isinstance(self.env[f_.value.id].v, (set, list, dict)) and not s.value.keywords \
+                        and not any(self.is_str(a_) or (isinstance(a_, ast.Starred) and self.is_str(a_.value)) for a_ in s.value.args) \
+                        and f_.attr in ("update", "add", "append", "extend", "discard", "remove", "difference_update", "intersection_update", "insert"):
+                    args_ = []
+                    for a_ in s.value.args:          # conc() raises Unsupported for anything that is not a table value
+                        if isinstance(a_, ast.Starred):
+                            args_.extend(list(self.conc(a_.value)))
+                        else:
+                            args_.append(self.conc(a_))
+                    getattr(self.env[f_.value.id].v, f_.attr)(*args_)
+                    return {"N": reach}
                 res = self.callfn(s.value)
                 if res is not None:
                     return {"N": reach & accepts(res), "E": reach & res["E"]}
